@@ -9,6 +9,7 @@
 -/
 import LiteFSVerif.Proofs.Engine
 import LiteFSVerif.Gen.Facts
+import LiteFSVerif.Proofs.ApplyBytes
 
 set_option linter.unusedSimpArgs false
 
@@ -73,6 +74,32 @@ theorem C07_truncate_frame (s s' : Eng) (size : Nat) (h : truncateDatabase s siz
   have := Nat.div_add_mod size s.pageSize
   rw [hal'] at this
   rw [Nat.mul_comm]; omega
+
+/-- ... and byte level: the only truncation `TruncateDatabase` accepts (on any node: it has no
+    write-authority gate of its own) leaves every byte of the committed image in place — the file
+    afterwards has exactly `pageN` pages and each of its bytes is the byte that was there -/
+theorem C07_truncate_keeps_image_bytes (s s' : Eng) (size : Nat) (h : truncateDatabase s size = .ok s') :
+    ∃ d', s'.dbFile = some d' ∧ d'.size = s.pageN * s.pageSize ∧
+      ∀ i, i < d'.size → BA.getD d' i = BA.getD (Engine.dbBytes s) i := by
+  have hsz := (C07_truncate_frame s s' size h).2.2.2.2
+  unfold truncateDatabase at h
+  obtain ⟨_, _, h⟩ := M_bind_ok h
+  obtain ⟨_, _, h⟩ := M_bind_ok h
+  obtain ⟨_, h3, h⟩ := M_bind_ok h
+  obtain ⟨_, _, h⟩ := M_bind_ok h
+  have hn := ensure_ok h3
+  have hn' : size / s.pageSize = s.pageN := by simpa using hn
+  unfold truncateDatabaseFile at h
+  obtain ⟨ck, _, h⟩ := M_bind_ok h
+  simp only [pure, Except.pure] at h
+  injection h with h
+  subst h
+  refine ⟨_, rfl, ?_, ?_⟩
+  · rw [BA.size_truncate, hn']
+  · intro i hi
+    rw [BA.size_truncate] at hi
+    rw [BA.getD_truncate, if_pos hi]
+    rfl
 
 /-- WAL truncation and removal never touch the database file, the position or the log -/
 theorem C07_wal_truncate_frame (s s' : Eng) (size : Nat) (h : truncateWAL s size = .ok s') :
